@@ -77,6 +77,9 @@ package kmipclient
 //@ spec noDiscovery(r *kmip.ResponseMessage) bool = oneItem(r) && r.BatchItem[0].ResultStatus == kmip.ResultStatusOperationFailed && r.BatchItem[0].ResultReason == kmip.ResultReasonOperationNotSupported
 //@ spec globalsInit() bool = kmip.V1_0.ProtocolVersionMajor == 1 && kmip.V1_0.ProtocolVersionMinor == 0
 
+// the operation a payload belongs to (the assumed contract of OperationPayload.Operation is pure and functional)
+//@ spec opOf(p kmip.OperationPayload) kmip.Operation = ifn("iface kmip.OperationPayload.Operation", p)
+//@ spec payloadsMatch(r *kmip.ResponseMessage, payloads []kmip.OperationPayload) bool = forall k int :: 0 <= k && k < len(payloads) && r.BatchItem[k].ResultStatus == kmip.ResultStatusSuccess && r.BatchItem[k].ResponsePayload != nil ==> opOf(r.BatchItem[k].ResponsePayload) == opOf(payloads[k])
 //@ spec transportErr(c *Client) error = ite(len(c.middlewares) == 0, rtErr, cmwErr)
 //@ spec counted(r *kmip.ResponseMessage, n int) bool = r != nil && int(r.Header.BatchCount) == len(r.BatchItem) && len(r.BatchItem) == n
 
@@ -109,9 +112,16 @@ package kmipclient
 //@   ensures sent(c, old(cmwCalls), old(rtCalls)) && sentVersion == *c.version
 //@   ensures r1 == nil ==> len(r0) == len(payloads) && lastResp(c) != nil && int(lastResp(c).Header.BatchCount) == len(payloads) && r0 == lastResp(c).BatchItem
 //@   ensures ite(len(c.middlewares) == 0, rtErr, cmwErr) != nil ==> r1 != nil
-//@   ensures transportErr(c) == nil && counted(lastResp(c), len(payloads)) ==> r1 == nil
+//@   ensures r1 == nil ==> forall k int :: 0 <= k && k < len(payloads) && r0[k].ResultStatus == kmip.ResultStatusSuccess && r0[k].ResponsePayload != nil ==> opOf(r0[k].ResponsePayload) == opOf(payloads[k])
+//@   ensures r1 == nil && len(payloads) >= 1 && r0[0].ResultStatus == kmip.ResultStatusSuccess && r0[0].ResponsePayload != nil ==> opOf(r0[0].ResponsePayload) == opOf(old(payloads[0]))
+//@   ensures transportErr(c) == nil && counted(lastResp(c), len(payloads)) && payloadsMatch(lastResp(c), payloads) ==> r1 == nil
+//@   ensures transportErr(c) == nil && counted(lastResp(c), 1) && len(payloads) == 1 && (lastResp(c).BatchItem[0].ResultStatus != kmip.ResultStatusSuccess || lastResp(c).BatchItem[0].ResponsePayload == nil || opOf(lastResp(c).BatchItem[0].ResponsePayload) == opOf(old(payloads[0]))) ==> r1 == nil
 //@   ghostmod cmwCalls, cmwSelf, cmwNext, cmwCtx, cmwMsg, cmwRet, cmwErr, rtCalls, rtCtx, rtMsg, rtRet, rtErr, sentVersion, transmissions, dials, lastErrRetryable, connBroken, connClosed
 //@   loop 0 invariant -1 <= rangeindex && rangeindex < len(opts) && msg.Header.ProtocolVersion == *c.version && len(msg.BatchItem) == len(payloads)
+//@   loop 1 invariant resp != nil && len(resp.BatchItem) == len(payloads) && int(resp.Header.BatchCount) == len(payloads) && resp == lastResp(c) && transportErr(c) == nil
+//@   loop 1 invariant sent(c, old(cmwCalls), old(rtCalls)) && sentVersion == *c.version
+//@   loop 1 invariant rangeindex >= 0 && resp.BatchItem[0].ResultStatus == kmip.ResultStatusSuccess && resp.BatchItem[0].ResponsePayload != nil ==> opOf(resp.BatchItem[0].ResponsePayload) == opOf(payloads[0])
+//@   loop 1 invariant forall k int :: 0 <= k && k <= rangeindex && resp.BatchItem[k].ResultStatus == kmip.ResultStatusSuccess && resp.BatchItem[k].ResponsePayload != nil ==> opOf(resp.BatchItem[k].ResponsePayload) == opOf(payloads[k])
 
 //@ func (*Client).Batch
 //@   inline
@@ -120,7 +130,8 @@ package kmipclient
 //@   requires clientOK(c) && c.version != nil && payload != nil
 //@   ensures r1 == nil ==> oneItemResp(lastResp(c)) && lastResp(c).BatchItem[0].ResultStatus == kmip.ResultStatusSuccess && r0 == lastResp(c).BatchItem[0].ResponsePayload
 //@   ensures r1 != nil ==> r0 == nil
-//@   ensures transportErr(c) == nil && counted(lastResp(c), 1) && lastResp(c).BatchItem[0].ResultStatus == kmip.ResultStatusSuccess ==> r1 == nil
+//@   ensures r1 == nil ==> r0 != nil && opOf(r0) == opOf(payload)
+//@   ensures transportErr(c) == nil && counted(lastResp(c), 1) && lastResp(c).BatchItem[0].ResultStatus == kmip.ResultStatusSuccess && lastResp(c).BatchItem[0].ResponsePayload != nil && opOf(lastResp(c).BatchItem[0].ResponsePayload) == opOf(payload) ==> r1 == nil
 //@   ensures transportErr(c) == nil && counted(lastResp(c), 1) && lastResp(c).BatchItem[0].ResultStatus != kmip.ResultStatusSuccess ==> r1 != nil
 //@   ensures transportErr(c) == nil && counted(lastResp(c), 1) && lastResp(c).BatchItem[0].ResultStatus != kmip.ResultStatusSuccess ==> r1 == itemErrRet
 //@   ensures transportErr(c) == nil && counted(lastResp(c), 1) && lastResp(c).BatchItem[0].ResultStatus != kmip.ResultStatusSuccess ==> itemErrStatus == lastResp(c).BatchItem[0].ResultStatus && itemErrReason == lastResp(c).BatchItem[0].ResultReason && itemErrMsg == lastResp(c).BatchItem[0].ResultMessage
